@@ -4,6 +4,7 @@ from .pdb import strip, walk, loc, ancestors
 from .terms import Ctx, num, show, lin_add, lin_sub
 from .common import (P, F, SIZE, LEN, GE, effects, callee_path, call_args, ctor_summary, in_macro, effective_guards, entry_guards,
                      is_push, same_dim, local_ties, is_zero_term, canon_atom, guard_alts)
+from .common import value_before
 from .guards import facts, cond_atoms, norm_cmp
 from .guards import for_range as raw_for_range
 from .common import for_range_total as for_range
@@ -198,23 +199,29 @@ def run(rep, pdb, tier):
         effs = effects(pdb, ctx)
         pushes = [e for e in effs if e.kind == "push" and len(e.loops) == 2]
         gaps = [e for e in effs if e.kind == "set" and len(e.loops) == 1]
-        ok = len(pushes) == 1 and len(gaps) == 1
+        ok = len(pushes) == 1 and len(gaps) <= 1
         det = ""
         if ok:
-            pu, ga = pushes[0], gaps[0]
+            pu = pushes[0]
             ro, ri = for_range(ctx, pu.loops[0]), for_range(ctx, pu.loops[1])
             k = ro[0]
             gapv = lin_sub(("idx", CS, lin_add(k, num(1))), ("idx", CS, k))
-            glen = None
-            gb = ctx.binds.get(ga.target[1]) if ga.target[0] == "var" else None
-            gi = ctx.term(gb.init) if gb is not None and gb.init is not None else None
-            if gi is not None and gi[0] == "call" and str(gi[1]).endswith("from_elem"):
-                glen = gi[3]
-            full = ro[1] == num(0) and not ro[3] and (ro[2] == lin_add(LEN(CS), num(-1)) or (ro[2] == LEN(ga.target) and glen == lin_add(LEN(CS), num(-1))))
-            ok = full and pu.value == k and ga.index == k and ga.value == gapv and ri[1] == num(0) and ri[2] == ("idx", ga.target, k) and not ri[3] and ga.loops[0] is pu.loops[0]
+            # the number of copies: the gap itself, or a scratch vector element set to the gap in the same outer iteration
+            count, outer_hi = ri[2], ro[2]
+            if gaps:
+                ga = gaps[0]
+                gb = ctx.binds.get(ga.target[1]) if ga.target[0] == "var" else None
+                gi = ctx.term(gb.init) if gb is not None and gb.init is not None else None
+                glen = gi[3] if gi is not None and gi[0] == "call" and str(gi[1]).endswith("from_elem") else None
+                if count == ("idx", ga.target, k) and ga.index == k and ga.loops[0] is pu.loops[0] and _pos(ga.node) < _pos(pu.loops[1]):
+                    count = ga.value
+                if outer_hi == LEN(ga.target) and glen is not None:
+                    outer_hi = glen
+            full = ro[1] == num(0) and not ro[3] and outer_hi == lin_add(LEN(CS), num(-1))
+            ok = full and pu.value == k and count == gapv and ri[1] == num(0) and not ri[3]
             tail = fn["body"].get("expr")
             ok = ok and tail is not None and ctx.term(tail) == pu.target
-            det = "range 0..len(col_start)-1=%s gap=%s" % (full, show(ga.value, ctx))
+            det = "range 0..len(col_start)-1=%s copies per column=%s" % (full, show(count, ctx))
         rep.add("col-index", rule, ok, fn["body"], det, where=loc(fn["body"]))
     # ---- lookup: get / insert agree
     sig = {}
@@ -329,15 +336,20 @@ def check_transpose(rep, pdb, walks, key):
             r = for_range(ctx, pre[0].loops[0])
             j = r[0]
             okp = r[1:5] == (num(0), ROWS, False, False) and pre[0].index == lin_add(j, num(1)) and pre[0].value == lin_add(("idx", ("field", at, "col_start"), j), ("idx", cnt, j))
-        reset = [e for e in effs if e.kind == "assign" and e.target == cnt and not e.loops]
-        okr = len(reset) == 1 and reset[0].value == cinit and _pos(pre[0].loops[0]) < _pos(reset[0].node) < _pos(sr.loops[0]) if okp else False
+        # the scatter's counters: all zero, one per row, when the scatter starts (the count vector reset by assignment or
+        # fill, or a fresh vector)
+        cnt2 = c2.target
+        zero_rows = lambda t: t is not None and t[0] == "call" and str(t[1]).endswith("from_elem") and len(t) == 4 and t[2:4] == (num(0), ROWS)
+        start = value_before(ctx, cnt2, sr.loops[0]) if cnt2[0] == "var" else None
+        okr = bool(okp) and zero_rows(start) and _pos(pre[0].loops[0]) < _pos(sr.loops[0])
+        # ... and the prefix sums are complete before: nothing else writes cnt2 or at.col_start inside the scatter except the bump
         rr = ("idx", RI, j2)
-        idx = lin_add(("idx", ("field", at, "col_start"), rr), ("idx", cnt, rr))
+        idx = lin_add(("idx", ("field", at, "col_start"), rr), ("idx", cnt2, rr))
         sv_idx = ctx.def_term(sv.index) if sv.index[0] == "var" else sv.index
         sr_idx = ctx.def_term(sr.index) if sr.index[0] == "var" else sr.index
         oks = sr.kind == "set" and sr.target == ("field", at, "row_index") and sr.value == i2 and sr_idx == idx and \
             sv.kind == "set" and sv.target == ("field", at, "val") and sv.value == ("idx", VAL, j3) and sv_idx == idx and \
-            c2.kind == "upd" and c2.target == cnt and c2.index == rr and c2.value == num(1) and c2.op == "+=" and _pos(c2.node) > _pos(sv.node) and _pos(c2.node) > _pos(sr.node)
+            c2.kind == "upd" and c2.index == rr and c2.value == num(1) and c2.op == "+=" and _pos(c2.node) > _pos(sv.node) and _pos(c2.node) > _pos(sr.node)
         ok = okc and okp and okr and oks
         det = "count pass=%s prefix over rows=%s counters reset=%s scatter (same idx for row_index and val, source column stored, counter bumped after)=%s" % (okc, okp, okr, oks)
     rep.add(key, rule, ok, fn["body"], det, where=loc(fn["body"]))
